@@ -12,7 +12,9 @@
      uri_rejects t s      exists fuel such that it returns false or raises.
      rfc t                Rfc3986.v: the RFC production as a regular expression; matches = its denotation.
      bytes_ok s           every element of s is < 256. *)
+From Coq Require Import ZArith.
 From PegtlV Require Import Base Grammar Engine ExactSound Regex RegexIncl Rfc3986 UriModel UriProof.
+From PegtlV Require IntegerSpec.
 
 (* ---- the specification-side recogniser is exact (this is the oracle the check extracts) ---- *)
 Theorem C20_oracle_exact : forall r s, re_match r s = true <-> matches r s.
@@ -64,3 +66,23 @@ Theorem C20_complete_refuted :
   exists s, bytes_ok s /\ matches (rfc TURI_reference) s /\ uri_rejects TURI_reference s /\ ~ uri_accepts TURI_reference s.
 Proof. exact UriProof.complete_refuted. Qed.
 Print Assumptions C20_complete_refuted.
+
+(* ---- IPv4address is exact: accepted iff derivable from RFC 3986 IPv4address ---- *)
+Theorem C20_complete_IPv4address : forall s, bytes_ok s -> matches (rfc TIPv4address) s -> uri_accepts TIPv4address s.
+Proof. exact UriProof.complete_IPv4address. Qed.
+Print Assumptions C20_complete_IPv4address.
+
+Theorem C20_exact_IPv4address : forall s, bytes_ok s -> (uri_accepts TIPv4address s <-> matches (rfc TIPv4address) s).
+Proof. exact UriProof.exact_IPv4address. Qed.
+Print Assumptions C20_exact_IPv4address.
+
+(* the dec_octet leaf: maximum_rule< uint8_t, 255 > (C15 model) accepts exactly the RFC dec-octet strings *)
+Theorem C20_dec_octet_numeral : forall w, bytes_ok w -> matches Rfc3986.dec_octet w ->
+  IntegerSpec.unsigned_numeral w /\ (IntegerSpec.unsigned_value w <= 255)%Z.
+Proof. exact UriProof.dec_octet_numeral. Qed.
+Print Assumptions C20_dec_octet_numeral.
+
+Theorem C20_numeral_dec_octet : forall ds, IntegerSpec.unsigned_numeral ds -> (IntegerSpec.unsigned_value ds <= 255)%Z ->
+  matches Rfc3986.dec_octet ds.
+Proof. exact UriProof.numeral_dec_octet. Qed.
+Print Assumptions C20_numeral_dec_octet.
